@@ -1,6 +1,8 @@
 pub mod common;
 pub mod conv;
 pub mod props;
+pub mod props2;
+pub mod props3;
 
 use crate::runner::Check;
 
@@ -11,5 +13,18 @@ pub fn all_checks() -> Vec<Box<dyn Check>> {
         Box::new(props::c03()),
         Box::new(props::c05()),
         Box::new(props::c12()),
+        Box::new(props2::c06()),
+        Box::new(props2::c07()),
+        Box::new(props2::c08()),
+        Box::new(props2::c09()),
+        Box::new(props2::c10()),
+        Box::new(props2::C13),
+        Box::new(props2::c14()),
+        Box::new(props2::c16()),
+        Box::new(props2::c17()),
+        Box::new(props3::C04),
+        Box::new(props3::C15),
+        Box::new(props3::C19),
+        Box::new(props3::C20),
     ]
 }
